@@ -660,6 +660,7 @@ theorem obs_setChildValue (g : GW) (node child : Int) (vt : VT) (value : Str) (a
     · rfl
     · rename_i n hn
       dsimp only
+      unfold setKnown
       split
       · rfl
       · split
